@@ -414,7 +414,7 @@ def run_echo_piv(run, P):
                                       ('?' if v is None else v, short(c['a'][3])[:40]), ctx.path())
             return None
         solve(f, Env(), on_event, None, keys, R, key_fn=lambda e: (e.ts.get('echo', ()), tuple(e.nullf(v) for v in sorted(condvars))))
-    run.require(n >= 1 or run.fixture_mode or run.cfg != 'base', 'R-SSN-ORDER(Echo): no function that adds an Echo option and protects the PDU found')
+    run.require_count(n >= 1 or run.fixture_mode or run.cfg != 'base', 'R-SSN-ORDER(Echo): no function that adds an Echo option and protects the PDU found')
 
 
 def run_ctx_siblings(run, P):
